@@ -4,8 +4,11 @@ set -u
 P="$1"; C="$2"; T="${3:-quick}"
 test -z "$(git -C /repo status --porcelain)" || { echo "/repo not clean"; exit 9; }
 git -C /repo apply "$P" || { echo "patch does not apply"; exit 9; }
+# the evidence file of the clean tree is kept: a run on a seeded tree must not replace it
+cp /verif/evidence/$C.json /tmp/.evidence_$C.bak 2>/dev/null
 cd /verif && ./check "$C" --tier "$T" 2>&1 | grep -v "^KNOWN-FINDING" | tail -${LINES_OUT:-4}
 rc=${PIPESTATUS[0]}
+test -f /tmp/.evidence_$C.bak && mv /tmp/.evidence_$C.bak /verif/evidence/$C.json
 git -C /repo checkout -- . ; git -C /repo clean -fdq src tests 2>/dev/null
 /venv/bin/python /verif/tools/translate.py /repo /verif/lean/PicoSVG/Gen >/dev/null
 exit $rc
